@@ -1,0 +1,10 @@
+//go:build verif
+
+package arraylist
+
+// VerifRaw returns a copy of the backing slice, its capacity and whether it is nil.
+func (list *List[T]) VerifRaw() (elements []T, capacity int, isNil bool) {
+	elements = make([]T, len(list.elements))
+	copy(elements, list.elements)
+	return elements, cap(list.elements), list.elements == nil
+}
